@@ -126,11 +126,13 @@ Proof. unfold zod_infer, C10Check.parse_ex. cbv zeta. destruct (has_err (lex_mod
 
 Definition schema_site (s : site) (md : mode) : bool := negb (site_is_type s md).
 
-Theorem sound_zod_schema : zod_parse_link -> forall m t s md, mapping_ok m -> targets_ok m -> dom_m m t = true ->
-  tdepth (sem t) < 60 -> schema_site s md = true -> kf_C05 s md m t = false ->
+(* with the parse of this very schema text as premise *)
+Lemma sound_zod_schema_inst m t s md : mapping_ok m -> targets_ok m -> dom_m m t = true ->
+  tdepth (sem t) < 64 -> schema_site s md = true -> kf_C05 s md m t = false ->
+  C10Check.parse_ex (C10Zod.build_schema m (sem t)) = Some (C10Zod.zex_of m (sem t) false) ->
   exists text, emit_type s md m t = Some text /\ observe (site_is_type s md) text = Some (expected s m t).
 Proof.
-  intros Hlink m t s md Hm Ht Hd Hdepth Hs Hk.
+  intros Hm Ht Hd Hdepth Hs Hk Hinst.
   destruct (dom_m_facts m Hm t Hd) as (Hw & Hok & Hsh). pose proof (dom_m_nobr m t Hd) as Hb.
   pose proof (dom_m_names_ok m Ht t Hd) as Hn.
   unfold schema_site in Hs. apply negb_true_iff in Hs.
@@ -144,10 +146,26 @@ Proof.
     destruct s, md; try discriminate Hs; cbn [emit_ts]; [rewrite Hparam; rewrite app_nil_r|]; reflexivity. }
   exists (zbuild m (sem t) false). split; [exact Htext|]. rewrite Hs. cbn [observe].
   rewrite zod_infer_parse_ex. rewrite <- zbuild_eq. change (C10Zod.zbuild m (sem t) false) with (C10Zod.build_schema m (sem t)).
-  rewrite (Hlink m (sem t)) by (repeat split; auto).
-  rewrite zshape_zex by (auto; lia). unfold expected.
+  rewrite Hinst. rewrite zshape_zex by (auto; lia). unfold expected.
   assert (Hq : site_qualified s = false) by (destruct s, md; try discriminate Hs; reflexivity).
   rewrite Hq, Hsh. reflexivity.
+Qed.
+
+Lemma zod_clean_of_class m t s md : schema_site s md = true -> kf_C05 s md m t = false -> zod_clean (msubst m (sem t)) = true.
+Proof. intros Hs Hk. unfold schema_site in Hs. apply negb_true_iff in Hs.
+  unfold kf_C05, all_classes in Hk. cbn [existsb in_class] in Hk. rewrite Hs in Hk. cbn [andb negb] in Hk.
+  apply orb_false_elim in Hk as [_ Hk]. apply orb_false_elim in Hk as [_ Hk].
+  apply orb_false_elim in Hk as [Hko Hk]. apply orb_false_elim in Hk as [Hks Hk].
+  apply orb_false_elim in Hk as [Hkr _]. apply orb_false_elim in Hko as [Hopt _].
+  unfold zod_clean. rewrite Hopt, Hks, Hkr. reflexivity. Qed.
+
+Theorem sound_zod_schema : zod_parse_link -> forall m t s md, mapping_ok m -> targets_ok m -> dom_m m t = true ->
+  tdepth (sem t) < 60 -> schema_site s md = true -> kf_C05 s md m t = false ->
+  exists text, emit_type s md m t = Some text /\ observe (site_is_type s md) text = Some (expected s m t).
+Proof.
+  intros Hlink m t s md Hm Ht Hd Hdepth Hs Hk. apply sound_zod_schema_inst; auto; [lia|].
+  apply Hlink. destruct (dom_m_facts m Hm t Hd) as (_ & Hok & _).
+  repeat split; auto; [apply dom_m_names_ok; auto | eapply zod_clean_of_class; eauto].
 Qed.
 
 (* every site, both modes: the full statement, under the link and the depth premise *)
@@ -158,4 +176,40 @@ Proof.
   intros Hlink m t s md Hm Ht Hd Hdepth Hk. destruct (site_is_type s md) eqn:Hty.
   - rewrite <- Hty. apply sound_ts_sites; auto.
   - rewrite <- Hty. apply sound_zod_schema; auto. unfold schema_site. rewrite Hty. reflexivity.
+Qed.
+
+(* ---------------- the link is a theorem of the C10 development ---------------- *)
+Require TT.Proofs.C10LexEx TT.Proofs.C10Depth.
+
+Lemma in3_prim4 x : C10Zod.in_names x ["string"; "number"; "boolean"]%string = true -> prim4 x = true /\ idstr x.
+Proof. unfold C10Zod.in_names. cbn [existsb]. intros H.
+  repeat (apply orb_true_iff in H as [H|H]); try discriminate; apply str_eqb_eq in H; subst x;
+    (split; [reflexivity | split; [discriminate | repeat constructor]]). Qed.
+Lemma map_ok_targets m : C10Zod.map_ok m = true -> mapping_ok m /\ targets_ok m.
+Proof. unfold C10Zod.map_ok, mapping_ok, targets_ok. intros H. rewrite forallb_forall in H.
+  split; apply Forall_forall; intros kv Hkv; destruct (in3_prim4 _ (H kv Hkv)); assumption. Qed.
+Lemma tdepth_tsdepth : forall t, tdepth t <= S (C10Depth.tsdepth t).
+Proof. induction t as [p|u IH|k v IHk IHv|u IH|l IH|u IH|u IH|n] using ts_ind'; cbn [tdepth C10Depth.tsdepth]; try lia.
+  apply le_n_S. induction IH as [|x xs Hx _ IHxs]; cbn [fold_right]; lia. Qed.
+
+(* the Zod schema sites, with NO hypothesis about parsing: the builder's text parses to the builder's tree
+   by C10LexEx.parse_build (premises of that theorem: targets among string/number/boolean, the structure in
+   C10's domain - map keys string/number, names legal and not taken - and the nesting bound) *)
+Theorem sound_zod_schema_proved m t s md : C10Zod.map_ok m = true -> dom_m m t = true -> C10Zod.dom (sem t) = true ->
+  C10Depth.tsdepth (sem t) < 31 -> schema_site s md = true -> kf_C05 s md m t = false ->
+  exists text, emit_type s md m t = Some text /\ observe (site_is_type s md) text = Some (expected s m t).
+Proof.
+  intros Hmo Hd Hd10 Hdepth Hs Hk. destruct (map_ok_targets m Hmo) as [Hm Ht].
+  apply sound_zod_schema_inst; auto.
+  - pose proof (tdepth_tsdepth (sem t)). lia.
+  - apply (C10LexEx.parse_build m Hmo); auto. apply (C10Depth.budgets m (sem t) false Hmo Hdepth).
+Qed.
+
+Theorem sound_all_sites_proved m t s md : C10Zod.map_ok m = true -> dom_m m t = true -> C10Zod.dom (sem t) = true ->
+  C10Depth.tsdepth (sem t) < 31 -> kf_C05 s md m t = false ->
+  exists text, emit_type s md m t = Some text /\ observe (site_is_type s md) text = Some (expected s m t).
+Proof.
+  intros Hmo Hd Hd10 Hdepth Hk. destruct (map_ok_targets m Hmo) as [Hm Ht]. destruct (site_is_type s md) eqn:Hty.
+  - rewrite <- Hty. apply sound_ts_sites; auto.
+  - rewrite <- Hty. apply sound_zod_schema_proved; auto. unfold schema_site. rewrite Hty. reflexivity.
 Qed.
